@@ -215,7 +215,8 @@ def check_invocations(obs, ro, ref, prog, lazy_guard=None):
             if e.must and counts.get(key, 0) < e.n:
                 out.append(F(['C01', 'C12'], 'missing_execution', node=key[0], got=counts.get(key, 0),
                              exp=e.n))
-    elif ref.outcome[0] == 'value' and ro.outcome in ('error', 'raised') and not obs.verdict:
+    elif ref.outcome[0] == 'value' and ro.outcome in ('error', 'raised') and not obs.verdict \
+            and not isinstance(ro.raised, asyncio.CancelledError):
         # the run failed although nothing in the program makes it fail: an execution whose last attempt raised and
         # which was not re-invoked although its retry policy demands further attempts was abandoned (C12)
         cur = {}
